@@ -138,6 +138,14 @@ TIES = {
     "encode_stmt": {"sources": ["pyjelly/serialize/encode.py"], "unit": "encode", "gen": "EncodeGen", "tie": "EncodeStmtTie",
                     "needs": ["lookup_enc", "options", "encode"],
                     "theorems": ["source_encode_triple_is_model", "source_encode_quad_is_model"]},
+    "flows": {"sources": ["pyjelly/serialize/flows.py"], "gen": "FlowsGen", "tie": "FlowsTie", "needs": [],
+              "theorems": ["source_flow_new_is_model", "source_to_stream_frame_is_model", "source_frame_from_bounds_is_model",
+                           "source_frame_from_graph_is_model", "source_frame_from_dataset_is_model", "source_flow_for_type_is_model"]},
+    # the Stream class family: construction with flow inference, enroll, namespace_declaration, triple(), quad()
+    "streams": {"sources": ["pyjelly/serialize/streams.py"], "gen": "StreamsGen", "tie": "StreamsTie",
+                "needs": ["lookup_enc", "options", "encode", "encode_stmt", "flows"],
+                "theorems": ["source_stream_new_is_model", "source_enroll_is_model", "source_namespace_declaration_is_model",
+                             "source_stream_triple_is_model", "source_stream_quad_is_model"]},
     # property C05 itself, about the translated writer and reader coupled as the wire couples them (no model in the statement)
     "c05_source": {"sources": ["pyjelly/serialize/lookup.py", "pyjelly/parse/lookup.py"], "unit": "lookup_enc", "gen": "LookupEncGen", "tie": "C05Source",
                    "needs": ["lookup_enc", "lookup_dec"], "props": ["C05"], "theorems": ["C05_source_mirror_all_histories"]},
@@ -158,11 +166,70 @@ def anchor_files(pid: str) -> list[str]:
     return []
 
 
+def _static_digest() -> str:
+    """Hash of everything hand-written that a tie compilation reads (model, proofs, tie files)."""
+    import hashlib
+
+    h = hashlib.sha256()
+    for d in ("model", "proofs", "tie"):
+        for p in sorted((VERIF / "coq" / d).glob("*.v")):
+            h.update(p.name.encode())
+            h.update(p.read_bytes())
+    h.update((VERIF / "translate" / "py2v.py").read_bytes())
+    h.update((VERIF / "translate" / "family.py").read_bytes())
+    return h.hexdigest()
+
+
 def _one_tie(unit: str, t: dict, repo: str) -> dict:
+    """Translate the chain of units from the tree under check, then compile generated files and tie files.
+    The outcome is remembered under _build/tiecache/ keyed by the hash of ALL inputs (the fresh translations of
+    this run and every hand-written file): a later check of the same tree with the same development re-uses the
+    kernel's verdict instead of asking for it again."""
+    import hashlib
     import shutil
     import tempfile
 
-    res = {"unit": unit, "broken": None, "lines": 0}
+    res = {"unit": unit, "broken": None, "lines": 0, "cached": False}
+    chain0 = [(n, TIES[n], False) for n in t.get("needs_gen", [])] + [(n, TIES[n], True) for n in t["needs"]] + [(unit, t, True)]
+    texts = {}
+    for u, tu, _ in chain0:
+        tu_unit = tu.get("unit", u)
+        if tu_unit in texts:
+            continue
+        p = subprocess.run([sys.executable, str(VERIF / "translate" / "py2v.py"), repo, tu_unit], capture_output=True, text=True, timeout=120)
+        if p.returncode != 0:
+            res["broken"] = (f"source tie {unit}: the translator cannot read {', '.join(tu['sources'])} any more ({p.stderr.strip()[-300:]}); "
+                             f"theorems {t['theorems']} of coq/tie/{t['tie']}.v are not re-proved")
+            return res
+        if FORBIDDEN.search(strip_comments(p.stdout)):
+            res["broken"] = f"source tie {unit}: forbidden construct in the generated file"
+            return res
+        texts[tu_unit] = p.stdout
+    res["lines"] = len(texts[t.get("unit", unit)].splitlines())
+    key = hashlib.sha256((_static_digest() + unit + "".join(k + v for k, v in sorted(texts.items()))).encode()).hexdigest()
+    cache = VERIF / "_build" / "tiecache" / f"{key}.json"
+    if cache.exists():
+        try:
+            c = json.loads(cache.read_text())
+            res["broken"], res["cached"] = c["broken"], True
+            return res
+        except Exception:  # noqa: BLE001
+            pass
+    out_res = _compile_tie(unit, t, texts)
+    res["broken"] = out_res
+    try:
+        cache.parent.mkdir(parents=True, exist_ok=True)
+        cache.write_text(json.dumps({"broken": out_res}))
+    except OSError:
+        pass
+    return res
+
+
+def _compile_tie(unit: str, t: dict, texts: dict) -> str | None:
+    import shutil
+    import tempfile
+
+    res = {"broken": None}
     tmpd = tempfile.mkdtemp(prefix="verif_tie_")
     os.mkdir(f"{tmpd}/gen")
     os.mkdir(f"{tmpd}/tie")
@@ -173,19 +240,8 @@ def _one_tie(unit: str, t: dict, repo: str) -> dict:
             gen_file = Path(tmpd) / "gen" / f"{tu['gen']}.v"
             cmd = f"cd {VERIF}/coq && "
             if not gen_file.exists():
-                p = subprocess.run([sys.executable, str(VERIF / "translate" / "py2v.py"), repo, tu.get("unit", u)], capture_output=True, text=True, timeout=120)
-                if p.returncode != 0:
-                    res["broken"] = (f"source tie {unit}: the translator cannot read {', '.join(tu['sources'])} any more ({p.stderr.strip()[-300:]}); "
-                                     f"theorems {t['theorems']} of coq/tie/{t['tie']}.v are not re-proved")
-                    return res
-                gen_text = p.stdout
-                if FORBIDDEN.search(strip_comments(gen_text)):
-                    res["broken"] = f"source tie {unit}: forbidden construct in the generated file"
-                    return res
-                gen_file.write_text(gen_text)
+                gen_file.write_text(texts[tu.get("unit", u)])
                 cmd += f"timeout 600 coqc {q} {tmpd}/gen/{tu['gen']}.v && "
-            if u == unit:
-                res["lines"] = len(gen_file.read_text().splitlines())
             if with_tie:
                 cmd += f"timeout 600 coqc {q} -o {tmpd}/tie/{tu['tie']}.vo tie/{tu['tie']}.v"
             else:
@@ -193,10 +249,9 @@ def _one_tie(unit: str, t: dict, repo: str) -> dict:
             rc, out = sh(cmd, timeout=1300)
             closed = out.count("Closed under the global context")
             if rc != 0 or (with_tie and closed != len(tu["theorems"])) or "Axioms:" in out:
-                res["broken"] = (f"source tie {unit}: coq/tie/{tu['tie']}.v no longer proves {tu['theorems']} against the translation of "
-                                 f"{', '.join(tu['sources'])} (the source and the model are not shown to be in lock step): {out[-500:]}")
-                return res
-        return res
+                return (f"source tie {unit}: coq/tie/{tu['tie']}.v no longer proves {tu['theorems']} against the translation of "
+                        f"{', '.join(tu['sources'])} (the source and the model are not shown to be in lock step): {out[-500:]}")
+        return None
     finally:
         shutil.rmtree(tmpd, ignore_errors=True)
 
@@ -253,7 +308,8 @@ def source_ties(ctx, po: dict, pid: str) -> list[str]:
         for th in t["theorems"]:
             po["assumptions"][f"tie/{t['tie']}.{th}"] = "Closed under the global context"
         ctx.report.notes.append(f"source tie {unit}: {', '.join(t['sources'])} translated to Gallina by translate/py2v.py "
-                                f"({res['lines']} lines), coq/tie/{t['tie']}.v re-proved against it: {', '.join(t['theorems'])}")
+                                f"({res['lines']} lines), coq/tie/{t['tie']}.v re-proved against it: {', '.join(t['theorems'])}"
+                                + (" (identical translation and development already checked by coqc in this build: verdict re-used from _build/tiecache)" if res.get("cached") else ""))
     return broken_units
 
 
